@@ -409,6 +409,7 @@ package raft
 
 //@ func Raft.sendAppendEntriesToPeers
 //@   flags inline lockheld
+//@   at call r.tryApplyReadOnlyOperations assert [confirm-single] singleMember(r)
 //@ func Raft.tryApplyReadOnlyOperations
 //@   flags inline lockheld
 //@ func operationManager.markAsVerified
@@ -570,3 +571,10 @@ package raft
 //@   at call r.appendConfiguration assert [guard] r.state == Leader && committedThisTermSpec(r) && !pendingSpec(r)
 //@   at call r.appendConfiguration assert [delta] (forall k string :: (k in configuration.Members) == (k in r.configuration.Members && k != id)) && (forall k string :: k != id && k in r.configuration.Members ==> configuration.Members[k] == r.configuration.Members[k] && configuration.IsVoter[k] == r.configuration.IsVoter[k])
 //@   ensures [answered-or-pending] Llast == old(Llast) ==> answered[configurationFuture.responseCh]
+
+// Call-graph obligations: who may renew the lease / mark reads as verified.
+//@ callers lease.renew = Raft.tryApplyReadOnlyOperations
+//@ callers operationManager.markAsVerified = Raft.tryApplyReadOnlyOperations
+//@ callers Raft.tryApplyReadOnlyOperations = Raft.sendAppendEntries Raft.sendAppendEntriesToPeers
+//@ callers Raft.becomeLeader = Raft.sendRequestVote Raft.sendRequestVoteToPeers
+//@ callers Raft.becomeCandidate = Raft.election Raft.sendRequestVoteToPeers
